@@ -174,15 +174,17 @@ impl Clone for TransitionCycle {
                 assert(*vehicle_id == vs[k]);
                 assert(tours@.contains_key(vs[k]) && tour_ok(network, &tours@[vs[k]]));
             }
-//@after "sorted_clusters.push((vec![*vehicle_id]"
-                proof {
+//@after "if tour.maintenance_counter() < 0"
+            proof {
+                if tour_counter(&tours@[vs[k]]) < 0 {
                     let c = sorted_clusters@[sc_a.len() as int];
-                    assert(sorted_clusters@ == sc_a.push(c));
+                    assert(sorted_clusters@ =~= sc_a.push(c));
                     assert(c.0@ =~= seq![vs[k]]);
                     lemma_split_cluster(network, tours@, vs, k, sc_a, su_a, c);
+                } else {
+                    lemma_split_unassigned(network, tours@, vs, k, sc_a, su_a);
                 }
-//@after "sorted_unassigned_vehicles.push(*vehicle_id)"
-                proof { lemma_split_unassigned(network, tours@, vs, k, sc_a, su_a); }
+            }
 //@end
 
 // ---- the keys of the first two sorts (closure bodies, lifted verbatim): they do not panic ----------------------------
